@@ -108,6 +108,8 @@ type FT struct {
 	failText  map[string]string
 	seenLens []Term // lengths of slices that exist as data (parameters, slices read from memory)
 	assignItems []*assignItem
+	compSort map[string]string // sort of each memory component seen so far
+	boxes   map[string]*Val // dynamic values of non-pointer types boxed in interfaces, by payload term and type
 }
 
 type frame struct {
@@ -116,6 +118,7 @@ type frame struct {
 	depth    int
 	inl      string // inline context label ("" at top)
 	vals     map[ssa.Value]*Val
+	dbgAddr  map[types.Object]ssa.Value // address-taken locals: variable -> its cell
 	exit     map[*ssa.BasicBlock]*bstate
 	loops    map[*ssa.BasicBlock]*loopInfo
 	inLoop   map[*ssa.BasicBlock][]*loopInfo
@@ -152,6 +155,10 @@ func (ft *FT) memSym(gen, ver int, comp, sortS string) Term {
 }
 
 func (ft *FT) memGet(m *Mem, comp, sortS string) Term {
+	if ft.compSort == nil {
+		ft.compSort = map[string]string{}
+	}
+	ft.compSort[comp] = sortS
 	if t, ok := m.m[comp]; ok {
 		if t.S != sortS {
 			ft.fatal = fmt.Sprintf("memory component %s used at two sorts %s / %s", comp, t.S, sortS)
@@ -237,6 +244,12 @@ func (ft *FT) load(m *Mem, lv *LV) *Val {
 			if l.Kind == 'l' && l.Lift == 0 && i+1 < len(ls) && ls[i+1].Kind == 'c' {
 				cp := v.L[i+1]
 				v.L[i] = ft.rangedDef("ldlen", v.L[i], func(x Term) Term { return mkAnd(uLe(x, cp), uLe(cp, idxInt(maxLen))) })
+				// a nil slice has length 0 (Go invariant of every slice value, also of those stored in memory)
+				if i >= 2 && ls[i-2].Kind == 'r' && strings.HasSuffix(ls[i-2].Path, "#ref") {
+					if _, named := ft.c.decls[v.L[i].T]; named {
+						ft.c.Assume(v.L[i], mkImp(mkEq(v.L[i-2], intConst(0)), mkEq(v.L[i], idxInt(0))))
+					}
+				}
 				ft.noteLen(v.L[i])
 			}
 		}
@@ -389,6 +402,25 @@ func (ft *FT) freshInput(hint string, t types.Type) *Val {
 		v.L[1] = idxInt(0)
 		ft.e.trust("slice/string arguments and call results are views starting at index 0 of their backing array (no partially overlapping slice arguments)")
 	}
+	return v
+}
+
+// unbox returns the value of dynamic type t carried by an interface with the given payload. Boxes are
+// immutable, so the same payload term and type always give the same value (a fresh input value the first
+// time: a slice or string in a box is a view starting at index 0, like a parameter).
+func (ft *FT) unbox(payload Term, t types.Type, hint string) *Val {
+	if ft.boxes == nil {
+		ft.boxes = map[string]*Val{}
+	}
+	k := payload.T + "|" + typeKey(t)
+	if v, ok := ft.boxes[k]; ok {
+		return v
+	}
+	v := ft.freshInput(hint, t)
+	if isSlice(t) {
+		ft.seenLens = append(ft.seenLens, v.L[2])
+	}
+	ft.boxes[k] = v
 	return v
 }
 
